@@ -10,12 +10,13 @@ Definition qmin (a b : Q) : Q := if Qle_bool a b then a else b.
 Definition qof (b : bool) : Q := if b then 1%Q else 0%Q.
 
 (* binary ufuncs: 0 add, 1 subtract, 2 multiply, 3 true_divide, 4 maximum, 5 minimum,
-   6 greater, 7 less_equal, 8 equal *)
+   6 greater, 7 less_equal, 8 equal, 9 less, 10 greater_equal, 11 not_equal *)
 Definition qbin (op : nat) (a b : Q) : Q :=
   match op with
   | 0 => Qplus a b | 1 => Qminus a b | 2 => Qmult a b | 3 => Qdiv a b
   | 4 => qmax a b | 5 => qmin a b
   | 6 => qof (negb (Qle_bool a b)) | 7 => qof (Qle_bool a b) | 8 => qof (Qeq_bool a b)
+  | 9 => qof (negb (Qle_bool b a)) | 10 => qof (Qle_bool b a) | 11 => qof (negb (Qeq_bool a b))
   | _ => 0%Q
   end.
 
@@ -38,12 +39,17 @@ Definition qred (op : nat) (l : list Q) : Q :=
 
 Definition qnonzero (a : Q) : bool := negb (Qeq_bool a 0).
 
+(* exact square root of a rational that is a perfect square (the generated data only produce
+   such radicands; any other radicand would make the case disagree, never agree by accident) *)
+Definition qsqrt (q : Q) : Q :=
+  let q' := Qred q in Qmake (Z.sqrt (Qnum q')) (Z.to_pos (Z.sqrt (Zpos (Qden q')))).
+
 Section WithDet.
 Variable vdet : nat -> (nat -> nat -> Q) -> Q.
 Variable vinv : nat -> (nat -> nat -> Q) -> nat -> nat -> Q.
 
 Definition evalQ : expr Q -> result Q :=
-  eval Q 0%Q 1%Q Qplus Qmult qnonzero qbin qun qred vdet vinv.
+  eval Q 0%Q 1%Q Qplus Qmult qnonzero qbin qun qred vdet vinv (1#2)%Q qsqrt.
 
 Definition observeQ (e : expr Q) : nat * list nat * list Q :=
   let '(k, s, v) := observe Q (evalQ e) in (k, s, map Qred v).
